@@ -1040,6 +1040,81 @@ def judge(stream, case):
     return out, bad
 
 
+def smaller(stream, case):
+    """candidate reductions of a case (fewer fields first, then simpler values)"""
+    import copy
+    out = []
+    if stream in ("atomic", "wfnprops") and case.get("wfn"):
+        for i in range(len(case["wfn"])):
+            if case["wfn"][i][0] not in ("basis", "restricted"):
+                c = copy.deepcopy(case)
+                del c["wfn"][i]
+                out.append(c)
+    if stream == "atomic":
+        for key, val in (("wfn", None), ("native", None), ("stdout", None), ("pnative", None), ("pstdout", None), ("pw", None)):
+            if case.get(key) is not None:
+                out.append(dict(copy.deepcopy(case), **{key: val}))
+        if case["rr"] != ["float", 0]:
+            out.append(dict(copy.deepcopy(case), rr=["float", 0]))
+            if case["rr"][0] == "arr" and len(case["rr"][1]) > 0:
+                n = len(case["rr"][1])
+                for m in (0, 1, 3, 4, 9):
+                    if m < n:
+                        out.append(dict(copy.deepcopy(case), rr=["arr", list(range(m)), [m], "nd"]))
+        if case["driver"] != "energy":
+            out.append(dict(copy.deepcopy(case), driver="energy"))
+    if stream == "props":
+        for i in range(len(case["fields"])):
+            if len(case["fields"]) > 1:
+                c = copy.deepcopy(case)
+                del c["fields"][i]
+                out.append(c)
+    if stream == "basis":
+        for i in range(len(case["atom_map"])):
+            c = copy.deepcopy(case)
+            del c["atom_map"][i]
+            out.append(c)
+        for i in range(len(case["centers"])):
+            if len(case["centers"]) > 1 and case["centers"][i][0] not in case["atom_map"]:
+                c = copy.deepcopy(case)
+                del c["centers"][i]
+                out.append(c)
+            for j in range(len(case["centers"][i][1])):
+                if len(case["centers"][i][1]) > 1:
+                    c = copy.deepcopy(case)
+                    del c["centers"][i][1][j]
+                    out.append(c)
+        if case["nbf"] is not None:
+            out.append(dict(copy.deepcopy(case), nbf=None))
+    if stream == "traj" and case["ids"]:
+        out.append(dict(case, ids=case["ids"][:-1]))
+        out.append(dict(case, ids=case["ids"][1:]))
+    return out
+
+
+def shrink_failure(f, budget=400):
+    """greedy minimisation of a failing case: keep a reduction iff the oracle still reports the same kind of failure"""
+    stream, case = f["case"]["stream"], f["case"]["input"]
+    sig = (f["what"][:24], f.get("tag"))
+    best, best_out, best_what = case, f["observed"], f["what"]
+    progress = True
+    while progress and budget > 0:
+        progress = False
+        for cand in smaller(stream, best):
+            budget -= 1
+            if budget <= 0:
+                break
+            try:
+                out, bad = judge(stream, cand)
+            except Exception:
+                continue
+            hit = [w for w, t in bad if (w[:24], t) == sig]
+            if hit:
+                best, best_out, best_what, progress = cand, out, hit[0], True
+                break
+    return dict(f, case={"stream": stream, "input": best}, observed=best_out, what=best_what, shrunk=(best != case))
+
+
 def correspond(ctx):
     warnings.filterwarnings("ignore", category=DeprecationWarning)
     corr = Corr()
@@ -1118,8 +1193,21 @@ def correspond(ctx):
             flush()
     ctx.log(f"{total} cases through the implementation; evaluating the model on the last block")
     flush()
+    # minimise the first unknown failure of each stream and report it first (the replay is written from the first one)
+    firsts, seen_streams = [], set()
+    for f in corr.failures:
+        if f.get("tag") is None and f["stream"] not in seen_streams:
+            seen_streams.add(f["stream"])
+            try:
+                firsts.append(shrink_failure(f))
+            except Exception as e:
+                corr.notes.append(f"shrinking failed: {type(e).__name__}: {e}")
+    corr.failures[:0] = firsts
     for tag, n in ntag.items():
         corr.notes.append(f"{n} symptom(s) of known-finding tag `{tag}` seen this run (at most 300 kept)")
+    # smallest failing case first within each stream (the replay file is written from the first one)
+    import json as _json
+    corr.failures.sort(key=lambda f: (f["stream"], not f.get("shrunk"), len(_json.dumps(f.get("case"), default=str))))
     corr.exhaustive = False
     return corr
 
@@ -1141,7 +1229,15 @@ def search(ctx, corr, reasons):
         for what, tag in bad:
             found.append({"stream": "search-" + stream, "case": {"stream": stream, "input": case}, "what": what, "observed": out,
                           "tag": tag})
-    return found
+    firsts, seen = [], set()
+    for f in found:
+        if f.get("tag") is None and f["stream"] not in seen:
+            seen.add(f["stream"])
+            try:
+                firsts.append(shrink_failure(f))
+            except Exception:
+                pass
+    return firsts + found
 
 
 def replay(ctx, rp):
